@@ -661,6 +661,7 @@ def run(ctx):
 def replay(case):
     import random
 
+    sys.setrecursionlimit(1000)
     core.celpy()
     acc = core.Acc()
     rnd = random.Random(0)
@@ -677,6 +678,23 @@ def replay(case):
         ex.s.uninstall()
         return not acc.violations, "\n".join(v["what"] for v in acc.violations[:3]) or "no interference reproduced in the replay budget"
     specs = [(r, PROGRAMS[i]) for r, i in case["specs"]]
+    if case["kind"] == "double-preemption":
+        # the coarse cross-function grid and then every ordered pair of evaluation-phase lines (capped), for this pair of programs
+        ex = Explorer(acc)
+        (ra, pa), (rb, _) = specs[0], specs[1]
+        lim = [2, 1]
+        ex.profile(ra, pa, lim[0])
+        ev_order = [site for site, i in sorted(ex.eval_first.items(), key=lambda kv: kv[1]) if ex.site_code.get(site) is not None and site[0] != "<string>"]
+        pre_a, pre_b = build_program(ra, pa), build_program(rb, pa)
+        pick = lambda frac: ev_order[min(len(ev_order) - 1, int(len(ev_order) * frac))]
+        pairs = [(pick(fa), pick(fb)) for fa in (0.5, 0.2, 0.8) for fb in (0.1, 0.4, 0.7, 0.95)] if len(ev_order) >= 8 else []
+        pairs += [(s1, s2) for s1 in ev_order[:: max(1, len(ev_order) // 20)] for s2 in ev_order[:: max(1, len(ev_order) // 20)]]
+        for s1, s2 in pairs[:420]:
+            ex.double_schedule([(ra, pa), (rb, pa)], s1, s2, f"replay {s1[0]}:{s1[1]} / {s2[0]}:{s2[1]}", lim, (pre_a, pre_b))
+            if acc.violations:
+                break
+        ex.s.uninstall()
+        return not acc.violations, "\n".join(v["what"] for v in acc.violations[:3]) or "no interference reproduced in the replay budget"
     if case["kind"] == "stress":
         stress(acc, rnd, 5.0, nthreads=len(specs))
     else:
